@@ -68,6 +68,7 @@ class Scenario:
     horizon = 4.0           # tick choices are offered up to this virtual time
     close_intervals = 6.0   # closing phase runs the clock this far past the last event
     fail_gates = False      # offer fail(g) besides done(g)
+    free_events = ()        # labels of caller-side events that never count as a deviation
     spin_proxy = True
 
     def __init__(self, **params):
@@ -372,8 +373,8 @@ class Exec:
             else:
                 c = 0
             label = menu[c][0]
-            self.points.append((tuple(m[0] for m in menu), c, ready, devs))
-            if ready and label != "run":
+            self.points.append((tuple(m[0] for m in menu), c, ready, devs, scen.free_events))
+            if ready and label != "run" and label not in scen.free_events:
                 devs += 1
             scen.trace.append(label)
             if label != "run" and label != "tick":
@@ -492,11 +493,11 @@ def explore(factory, bound, start=((), ()), budget=None, stats=None):
         choices = [p[1] for p in x.points]
         labs = [p[0][p[1]] for p in x.points]
         for i in range(len(prefix), len(x.points)):
-            menu, c, ready, devs = x.points[i]
+            menu, c, ready, devs, free = x.points[i]
             for alt in range(len(menu)):
                 if alt == c:
                     continue
-                cost = devs + (1 if (ready and menu[alt] != "run") else 0)
+                cost = devs + (1 if (ready and menu[alt] != "run" and menu[alt] not in free) else 0)
                 if cost > bound:
                     continue
                 stack.append((tuple(choices[:i]) + (alt,), tuple(labs[:i]) + (menu[alt],)))
